@@ -3,8 +3,8 @@
 package c06
 
 import (
-	"bytes"
 	"bufio"
+	"bytes"
 	"io"
 	"net"
 	"net/textproto"
